@@ -2,6 +2,7 @@
 import os
 import sys
 import json
+import time
 import random
 import shutil
 import tempfile
@@ -127,7 +128,7 @@ def run(prop, tier, seed):
         if gap:
             print('COVERAGE-GAP property=C11 link-state TLV types registered by yabgp but unknown to spec/WireTlv.tla: %s' % gap)
         jobs = []
-        grids = {f: gen(f, 1) for f in ('capgrid', 'attrgrid', 'mpgrid', 'nestgrid', 'fslen', 'lsnlri', 'deepgrid')}
+        grids = {f: gen(f, 1) for f in ('capgrid', 'attrgrid', 'mpgrid', 'nestgrid', 'fslen', 'lsnlri', 'deepgrid', 'textgrid')}
         for ep, hx in ls['vecs'] + sid['vecs']:
             jobs.append((ep, hx, 'tlvgrid'))
         for f, g in grids.items():
@@ -143,16 +144,52 @@ def run(prop, tier, seed):
         items = [(i, ep, hx, cls) for i, (ep, hx, cls) in enumerate(jobs)]
         procs = 16
         chunks = [items[i::procs * 4] for i in range(procs * 4)]
-        with mp.get_context('fork').Pool(procs) as pool:
-            res = pool.map(_work, [(k, ch, work) for k, ch in enumerate(chunks) if ch])
+        STUCK = 60.0         # seconds of wall clock one decoder call may take before it counts as not terminating
+        stuck = []
+        args = [(k, ch, work) for k, ch in enumerate(chunks) if ch]
+        pool = mp.get_context('fork').Pool(procs)
+        try:
+            ar = pool.map_async(_work, args)
+            while not ar.ready():
+                ar.wait(5)
+                now = time.time()
+                old = [f for f in os.listdir(work) if f.startswith('cur_') and now - os.path.getmtime(os.path.join(work, f)) > STUCK]
+                if old:
+                    for f in old:
+                        try:
+                            with open(os.path.join(work, f)) as fh:
+                                stuck.append(json.loads(fh.read().strip()))
+                        except Exception:
+                            pass
+                    break
+            if not stuck:
+                res = ar.get()
+        finally:
+            pool.terminate()
+            pool.join()
         nd = os.path.join(work, 'all.ndjson')
         ncalls = 0
         with open(nd, 'w') as out:
-            for p, n in res:
-                ncalls += n
-                with open(p) as fh:
-                    shutil.copyfileobj(fh, out)
-                os.remove(p)
+            if stuck:
+                # the run ends here: what the workers had finished is judged, each stuck call is a line that did not terminate
+                for f in sorted(os.listdir(work)):
+                    if f.startswith('dec_'):
+                        with open(os.path.join(work, f)) as fh:
+                            for line in fh:
+                                if line.endswith('\n'):
+                                    out.write(line)
+                                    ncalls += 1
+                for sline in stuck:
+                    out.write(json.dumps({'id': sline['id'], 'ep': sline['ep'], 'cls': sline['cls'], 'n': sline['n'], 'work': 2 ** 30, 'over': True,
+                                          'raised': False, 'upd': False, 'inrange': False, 'isdict': False,
+                                          'err': 'no answer within %d s of wall clock' % STUCK, 'hex': sline['hex']}, separators=(',', ':')) + '\n')
+                    ncalls += 1
+            else:
+                for p, n in res:
+                    ncalls += n
+                    with open(p) as fh:
+                        shutil.copyfileobj(fh, out)
+                    os.remove(p)
         rej, vst = validate(nd)
         want = set(r['tid'] for r in rej)
         byid = {}
